@@ -1,6 +1,7 @@
 package main
 
 import (
+	"golang.org/x/tools/go/ssa"
 	"fmt"
 	"go/ast"
 	"go/token"
@@ -537,6 +538,39 @@ func checkPrecedenceStore(c *Ctx) {
 		return true
 	})
 	c.Check("R12.3", "AddPrecedence appends the level at the end of the list", add.Pos(), okApp && n == 1, "the level is not appended (prepend/insert/overwrite changes which directive binds tighter)")
+	// ... on every path: a level that is left out under some condition (it looks like one recorded before) never reaches the
+	// verifier that reports a handle listed in two levels, and the recorded list is no longer the directives as written
+	if fn := c.SSAFunc(sp, add); fn != nil && okApp {
+		var appBlocks []*ssa.BasicBlock
+		for _, b := range fn.Blocks {
+			for _, in := range b.Instrs {
+				if call, ok := in.(*ssa.Call); ok {
+					if bi, ok := call.Call.Value.(*ssa.Builtin); ok && bi.Name() == "append" {
+						appBlocks = append(appBlocks, b)
+					}
+				}
+			}
+		}
+		skipped := token.NoPos
+		for _, b := range fn.Blocks {
+			ret, ok := b.Instrs[len(b.Instrs)-1].(*ssa.Return)
+			if !ok {
+				continue
+			}
+			through := false
+			for _, ab := range appBlocks {
+				if ab == b || ab.Dominates(b) {
+					through = true
+				}
+			}
+			if !through {
+				skipped = ret.Pos()
+			}
+		}
+		c.Check("R12.3", "AddPrecedence records the level on every path", add.Pos(), len(appBlocks) >= 1 && skipped == token.NoPos,
+			"a return of AddPrecedence ("+c.rel(skipped)+") is reached without appending the level: a directive that looks like an earlier one is dropped, so a handle written in two levels is accepted and the recorded levels are not the directives in order",
+			"@left \"+\"  written twice")
+	}
 	// Precedences: returns the same list expression; no sort / reverse calls in either
 	okRet := false
 	ast.Inspect(get.Body, func(nd ast.Node) bool {
